@@ -68,8 +68,16 @@ fn classify(a: V, b: V, c: V, d: V) -> Cls {
     Cls::Disjoint
 }
 
+thread_local! {
+    /// power-of-two factor applied to the integer coordinates when they are handed to the implementation
+    /// (the exact classification is scale-invariant)
+    static SCALE: std::cell::Cell<f64> = const { std::cell::Cell::new(1.0) };
+}
+fn sc() -> f64 {
+    SCALE.with(|c| c.get())
+}
 fn f(v: V) -> P {
-    (v.0 as f64, v.1 as f64)
+    (v.0 as f64 * sc(), v.1 as f64 * sc())
 }
 
 struct Outcome {
@@ -147,7 +155,7 @@ pub fn check_int(a: V, b: V, c: V, d: V, same: bool) -> Vec<String> {
     };
     let cls = classify(a, b, c, d);
     let mag = [a, b, c, d].iter().map(|v| v.0.abs().max(v.1.abs())).max().unwrap() as f64;
-    let tol = 1e-14 * mag.max(1.0);
+    let tol = 1e-14 * mag.max(1.0) * sc();
     let unchanged = o.queue_len == 0 && o.div1.is_none() && o.div2.is_none();
     match cls {
         Cls::Disjoint => {
@@ -161,7 +169,7 @@ pub fn check_int(a: V, b: V, c: V, d: V, same: bool) -> Vec<String> {
             }
         }
         Cls::Point(nx, ny, den) => {
-            let p = (nx as f64 / den as f64, ny as f64 / den as f64);
+            let p = (nx as f64 / den as f64 * sc(), ny as f64 / den as f64 * sc());
             // exactness is demanded where the implementation's arithmetic is exact: the true point is an end
             // point of one of the segments (T-junction): all cross products of integers below 2^25 are exact,
             // so the parameter is exactly 0 or 1 and the end point is reproduced bit for bit. For a point
@@ -195,7 +203,7 @@ pub fn check_int(a: V, b: V, c: V, d: V, same: bool) -> Vec<String> {
                 }
                 for dp in [o.div1, o.div2].into_iter().flatten() {
                     let inbox = |s0: V, s1: V| {
-                        dp.0 >= s0.0.min(s1.0) as f64 && dp.0 <= s0.0.max(s1.0) as f64 && dp.1 >= s0.1.min(s1.1) as f64 && dp.1 <= s0.1.max(s1.1) as f64
+                        dp.0 >= s0.0.min(s1.0) as f64 * sc() && dp.0 <= s0.0.max(s1.0) as f64 * sc() && dp.1 >= s0.1.min(s1.1) as f64 * sc() && dp.1 <= s0.1.max(s1.1) as f64 * sc()
                     };
                     if !inbox(a, b) || !inbox(c, d) {
                         add("division-point-outside-a-bounding-box".into());
@@ -286,6 +294,10 @@ fn lattice_segments(n: i64) -> Vec<(V, V)> {
 }
 
 fn sweep_int(st: &Stats, name: &str, segs: &[(V, V)], map: &(dyn Fn(V) -> V + Sync)) {
+    sweep_int_scaled(st, name, segs, map, 0)
+}
+
+fn sweep_int_scaled(st: &Stats, name: &str, segs: &[(V, V)], map: &(dyn Fn(V) -> V + Sync), scale_exp: i32) {
     let mapped: Vec<(V, V)> = segs
         .iter()
         .map(|&(p, q)| {
@@ -300,6 +312,7 @@ fn sweep_int(st: &Stats, name: &str, segs: &[(V, V)], map: &(dyn Fn(V) -> V + Sy
     st.family(&format!("{name}: {} segments, {} ordered pairs x {{different, same}} operand", mapped.len(), mapped.len() * mapped.len()));
     (0..mapped.len()).into_par_iter().for_each(|i| {
         let mut loc = Local::default();
+        SCALE.with(|c| c.set(2f64.powi(scale_exp)));
         let (a, b) = mapped[i];
         for &(c, d) in mapped.iter() {
             for same in [false, true] {
@@ -310,11 +323,12 @@ fn sweep_int(st: &Stats, name: &str, segs: &[(V, V)], map: &(dyn Fn(V) -> V + Sy
                     loc.nontrivial += 1;
                 }
                 for cla in check_int(a, b, c, d, same) {
-                    let key = format!("{:?}-{:?}|{:?}-{:?}|same={same}", a, b, c, d);
-                    loc.violation(&cla, key, json!({"prop": "C16", "kind": "int", "a": [a.0, a.1], "b": [b.0, b.1], "c": [c.0, c.1], "d": [d.0, d.1], "same": same}));
+                    let key = format!("{:?}-{:?}|{:?}-{:?}|same={same}|2^{scale_exp}", a, b, c, d);
+                    loc.violation(&cla, key, json!({"prop": "C16", "kind": "int", "a": [a.0, a.1], "b": [b.0, b.1], "c": [c.0, c.1], "d": [d.0, d.1], "same": same, "scale_exp": scale_exp}));
                 }
             }
         }
+        SCALE.with(|c| c.set(1.0));
         st.merge(&loc);
     });
 }
@@ -424,6 +438,7 @@ pub fn replay(case: &Value, verbose: bool) -> Vec<String> {
     let v = |k: &str| (case[k][0].as_i64().unwrap(), case[k][1].as_i64().unwrap());
     let (a, b, c, d) = (v("a"), v("b"), v("c"), v("d"));
     let same = case["same"].as_bool().unwrap();
+    SCALE.with(|c| c.set(2f64.powi(case["scale_exp"].as_i64().unwrap_or(0) as i32)));
     if verbose {
         println!("segment 1 {:?}-{:?}, segment 2 {:?}-{:?}, same operand: {same}; exact classification {:?}", a, b, c, d, classify(a, b, c, d));
         if let Ok(o) = step(a, b, c, d, same, false, false) {
@@ -456,6 +471,16 @@ pub fn run(tier: &str) -> i32 {
     ];
     for (name, m) in images.iter() {
         sweep_int(&st, name, &img_base, &**m);
+    }
+    // the same lattice segments with all coordinates multiplied by a power of two (exact; the classification
+    // is scale-invariant, so thresholds that are absolute instead of relative show up here)
+    for k in [-30, -200, 40] {
+        sweep_int_scaled(&st, &format!("L4 x 2^{k}"), &l4, &|v| v, k);
+    }
+    if thorough {
+        for k in [-60, 100] {
+            sweep_int_scaled(&st, &format!("L6 x 2^{k}"), &lattice_segments(6), &|v| v, k);
+        }
     }
     // steep segments: end points in {0,1,2} x {0, +-1, +-2^24, +-(2^24-1)} (thorough: more heights)
     let mut ys = vec![0, 1, -1, big, -big, big - 1, -(big - 1)];
